@@ -9,7 +9,9 @@ CONFIGS = {
           ("o_ss", dict(progs=[[O(2)], [O(3)]], MaxNow=0)),
           ("o_twice", dict(progs=[[O(0), O(2)], [O(3), O(1)]], MaxNow=1)),
           ("o_shared", dict(progs=[[O(2, 0)], [O(0, 0)], [O(0, 1)]], MaxNow=1)),
-          ("o_slow", dict(progs=[[O(2, 0)], [O(0, 0)]], MaxNow=6))],
+          ("o_slow", dict(progs=[[O(2, 0)], [O(0, 0)]], MaxNow=6)),
+          # four callers, both once words: behaviours from TLC's simulation mode, every generated transition replayed once
+          ("o_big", dict(progs=[[O(0), O(2, 1)], [O(1), O(3, 1)], [O(2)], [O(3), O(0, 1)]], MaxNow=1, _sim=(12, 500)))],
     "t": [("o_3", dict(progs=[[O(0)], [O(1)], [O(2)]], MaxNow=1)),
           ("o_shared2", dict(progs=[[O(0, 0)], [O(1, 0)], [O(1, 1), O(2, 0)]], MaxNow=1)),
           ("o_4", dict(progs=[[O(0)], [O(2)], [O(1)], [O(3)]], MaxNow=1))],
